@@ -60,7 +60,12 @@ U.fn(F, 'collect_sources',
                              'if v0.contains(f) || q0.contains(f) || f == file_id { lemma_reach_mono(m0, v0, m1, v1, root_file, f); } '
                              'else { let i = choose|i: int| 0 <= i < files@.len() && files@[i] == f; assert(i >= q0.len()); lemma_reach_step(m1, v1, root_file, file_id, f); } } }'),
        1: dict(after_iter_init='let ghost elems = __it1.remaining(); let ghost mut n: int = 0; let ghost dirs = include_dir_list@;',
-               body_prologue='proof { assert(elems.skip(n)[0] == elems[n]); n = n + 1; }',
+               body_prologue='let ghost fq = files@; let ghost im0 = include_map@; proof { assert(elems.skip(n)[0] == elems[n]); n = n + 1; }',
+               # order-independent: whatever this iteration did is read off the state at its end (at most one include recorded, at most one file queued)
+               body_epilogue=' proof { let cur = n - 1; let k = elems[cur].0; '
+                             'assert(!im0.contains_key(k)) by { if im0.contains_key(k) { let j = choose|j: int| 0 <= j < cur && (#[trigger] elems[j]).0 == k; assert(elems[j].0 != elems[cur].0); } } '
+                             'if include_map@.contains_key(k) { let v = include_map@[k]; assert(include_map@ =~= im0.insert(k, v)); lemma_insert_values(im0, k, v); } else { assert(include_map@ =~= im0); } '
+                             'if files@.len() == fq.len() + 1 { let x = files@[fq.len() as int]; assert(files@ =~= fq.push(x)); lemma_push_contains(fq, x); } else { assert(files@ =~= fq); } }',
                invariant=['fs_universe(fs) == fs_universe(old(fs))', 'fs_universe(fs).finite()', 'incmap(db) == m0', 'fset(&file_set) == v0.insert(file_id)',
                           'forall|i: int| 0 <= i < files@.len() ==> fs_universe(fs).contains(#[trigger] files@[i])',
                           '0 <= n <= elems.len()', '__it1.remaining() =~= elems.skip(n)', '__it1.obeys_prophetic_iter_laws()', '__it1.decrease() is Some', 'include_dir_list@ == dirs',
@@ -77,11 +82,5 @@ U.fn(F, 'collect_sources',
      body_proofs=[(r'SourceRoot::new\(file_set, root_file\)', 'proof { assert(files@.len() == 0); assert forall|g: FileId| !files@.contains(g) by { if files@.contains(g) { let i = choose|i: int| 0 <= i < files@.len() && files@[i] == g; } } '
                    'assert forall|f: FileId| fset(&file_set).contains(f) implies reachable(incmap(db), root_file, f) by { lemma_via_is_reachable(incmap(db), fset(&file_set), root_file, f); } }'),
                   (r'while let Some\(file_id\)', 'let ghost mut qg = files@; proof { lemma_reach_root(incmap(db), fset(&file_set), root_file); assert(files@[0] == root_file); }'),
-                  (r'continue;', 'proof { qg = files@; }'),
-                  (r'files\.push_back\(resolved_file_id\);', 'proof { lemma_push_contains(fq, resolved_file_id); }', 'after'),
-                  (r'include_map\.insert\(include_id, resolved_file_id\);', 'let ghost fq = files@; let ghost im0 = include_map@;'),
-                  (r'include_map\.insert\(include_id, resolved_file_id\);',
-                   'proof { let cur = n - 1; assert(elems[cur].0 == include_id); '
-                   'assert(!im0.contains_key(include_id)) by { if im0.contains_key(include_id) { let j = choose|j: int| 0 <= j < cur && (#[trigger] elems[j]).0 == include_id; assert(elems[j].0 != elems[cur].0); } } '
-                   'lemma_insert_values(im0, include_id, resolved_file_id); assert(include_map@ =~= im0.insert(include_id, resolved_file_id)); }', 'after')],
+                  (r'continue;', 'proof { qg = files@; }', 'optional')],
      )
